@@ -20,7 +20,8 @@
 //!
 //! Op grammar (one line each; every line answers `<observable> ## <verdict>`):
 //!   case <n>
-//!   init <Root value>
+//!   init <Root value> [arena|arc|conv]   the store handle: `Store::new` (default), `ArcStore::new` (cloned for every
+//!                                    use), `Store::from(ArcStore::new(..))`; everything else goes through it
 //!   eff <chain> [how]                one `Effect` reading the field; how = get (default) | read | with | track
 //!                                    (`.try_get()` / `.try_read()` / `.try_with(..)` / `.track()` + `try_read_untracked()`),
 //!                                    map | invert (`OptionStoreExt` on the Option field on the way, `.get()` inside),
@@ -58,7 +59,7 @@ use reactive_graph::{
     traits::*,
 };
 use reactive_stores::{
-    ArcField, AtKeyed, DerefField, Field, KeyedSubfield, OptionStoreExt, Patch, Store, StoreField,
+    ArcField, ArcStore, AtKeyed, DerefField, Field, KeyedSubfield, OptionStoreExt, Patch, Store, StoreField,
     StoreFieldIterator,
 };
 use std::ops::Deref;
@@ -919,17 +920,40 @@ fn nav_rootf<F: Node<Root>>(s: F, ch: &[Acc], op: &Do, er: Er) -> Out {
     }
 }
 
+/// the store handle family: the arena handle `Store` (made by `Store::new` or converted from an `ArcStore`)
+/// or the reference-counted `ArcStore` (cloned for every use)
+#[derive(Clone)]
+enum RootH {
+    Arena(Store<Root>),
+    Arc(ArcStore<Root>),
+}
+impl RootH {
+    fn snap(&self) -> V {
+        match self {
+            RootH::Arena(s) => s.read_untracked().to_v(),
+            RootH::Arc(a) => a.read_untracked().to_v(),
+        }
+    }
+}
+
 /// `era`: for writes, the accessor after k steps is converted to a `Field` (false) / `ArcField` (true)
-fn nav_root(s: Store<Root>, ch: &[Acc], op: &Do, era: Er) -> Out {
+fn nav_root(s: &RootH, ch: &[Acc], op: &Do, era: Er) -> Out {
     let er: Er = match op {
         Do::Reader(RHow::Field(k)) => Some((*k, false)),
         Do::Reader(RHow::Arc(k)) => Some((*k, true)),
         _ => era,
     };
-    match er {
-        Some((0, false)) => nav_rootf(Field::<Root>::from(s), ch, op, None),
-        Some((0, true)) => nav_rootf(ArcField::<Root>::from(s), ch, op, None),
-        _ => nav_rootf(s, ch, op, er),
+    match s {
+        RootH::Arena(s) => match er {
+            Some((0, false)) => nav_rootf(Field::<Root>::from(*s), ch, op, None),
+            Some((0, true)) => nav_rootf(ArcField::<Root>::from(*s), ch, op, None),
+            _ => nav_rootf(*s, ch, op, er),
+        },
+        RootH::Arc(a) => match er {
+            Some((0, false)) => nav_rootf(Field::<Root>::from(a.clone()), ch, op, None),
+            Some((0, true)) => nav_rootf(ArcField::<Root>::from(a.clone()), ch, op, None),
+            _ => nav_rootf(a.clone(), ch, op, er),
+        },
     }
 }
 
@@ -1075,7 +1099,7 @@ struct Reader {
     imm: bool,
 }
 struct Case {
-    store: Store<Root>,
+    store: RootH,
     _owner: Owner,
     readers: Vec<Reader>,
     task_of: Vec<usize>, // effect id of the i-th spawned task
@@ -1109,12 +1133,12 @@ fn via_handle(raw: &[Acc]) -> bool {
 fn nav_any(c: &Case, raw: &[Acc], op: &Do, era: Er) -> Out {
     match raw.first() {
         Some(Acc::H(id)) => (c.handles[*id].1)(&raw[1..], op, None),
-        _ => nav_root(c.store, raw, op, era),
+        _ => nav_root(&c.store, raw, op, era),
     }
 }
 
 fn snapshot(c: &Case) -> V {
-    c.store.read_untracked().to_v()
+    c.store.snap()
 }
 fn ready_ids(c: &Case) -> Vec<usize> {
     sched::ready().into_iter().map(|t| c.task_of[t]).collect()
@@ -1137,10 +1161,10 @@ fn fmt_log(l: &[(usize, String)]) -> String {
     }
 }
 
-fn reader_body(store: Store<Root>, chain: &Chain, how: RHow, f: &RFn) -> String {
+fn reader_body(store: &RootH, chain: &Chain, how: RHow, f: &RFn) -> String {
     let guarded = !matches!(how, RHow::Map | RHow::Invert | RHow::Iter | RHow::Variant);
     if guarded {
-        let snap = store.read_untracked().to_v();
+        let snap = store.snap();
         if guard_absent(&snap, chain) {
             // still track the field (tracking never touches the value), but do not read through a
             // `None.unwrap()` / an index past the end
@@ -1220,12 +1244,18 @@ fn render(c: &Case, pre: &str, log: &[(usize, String)], verdict: &str) -> String
     format!("{pre}r={} l={} ## {verdict}", fmt_ids(&ready_ids(c)), fmt_log(log))
 }
 
-fn new_case(root: Root) -> Case {
+fn new_case(root: Root, mode: &str) -> Case {
     sched::reset();
     let owner = Owner::new();
     owner.set();
+    let store = match mode {
+        "arc" => RootH::Arc(ArcStore::new(root)),
+        // `Store::from(ArcStore)`
+        "conv" => RootH::Arena(Store::from(ArcStore::new(root))),
+        _ => RootH::Arena(Store::new(root)),
+    };
     Case {
-        store: Store::new(root),
+        store,
         _owner: owner,
         readers: vec![],
         task_of: vec![],
@@ -1257,18 +1287,18 @@ fn add_reader(c: &mut Case, raw: &Chain, chain: Chain, how: RHow, imm: bool) -> 
         _ => chain.clone(),
     };
     c.readers.push(Reader { chain: chain.clone(), rel, imm });
-    let store = c.store;
+    let store = c.store.clone();
     let log = c.log.clone();
     if imm {
         let e = ImmediateEffect::new(move || {
-            let s = reader_body(store, &chain, how, &f);
+            let s = reader_body(&store, &chain, how, &f);
             log.lock().unwrap().push((id, s));
         });
         c._imms.push(e);
     } else {
         let before = sched::task_count();
         Effect::new(move |_| {
-            let s = reader_body(store, &chain, how, &f);
+            let s = reader_body(&store, &chain, how, &f);
             log.lock().unwrap().push((id, s));
         });
         assert_eq!(sched::task_count(), before + 1);
@@ -1446,10 +1476,16 @@ fn op_line(case: &mut Option<Case>, w: &[&str]) -> String {
             _ => "bad-op".into(),
         };
     }
-    if let ["init", v] = w {
+    if let ["init", v, rest @ ..] = w {
+        // `init <value> [arena|arc|conv]`: the store handle family of the case
+        let mode = match rest {
+            [] => "arena",
+            [m @ ("arena" | "arc" | "conv")] => *m,
+            _ => return "bad-op".into(),
+        };
         return match parse_v(v).and_then(|v| Root::from_v(&v)) {
             Some(r) => {
-                *case = Some(new_case(r));
+                *case = Some(new_case(r, mode));
                 "ok".into()
             }
             None => "bad-op".into(),
@@ -1541,7 +1577,7 @@ fn op_line(case: &mut Option<Case>, w: &[&str]) -> String {
             if via_handle(&raw) || !chain_ok(&ch) || ends_keyed(&ch) || !vars_match(&snapshot(c), &ch) {
                 return "bad-op".into();
             }
-            match nav_root(c.store, &ch, &Do::MakeHandle, Some((ch.len(), *kind == "arc"))) {
+            match nav_root(&c.store, &ch, &Do::MakeHandle, Some((ch.len(), *kind == "arc"))) {
                 Out::Handle(h) => {
                     c.handles.push((ch, h));
                     format!("h={}", c.handles.len() - 1)
@@ -2596,9 +2632,20 @@ fn gen(seed: u64, n: usize, path: &str, _tier: &str) -> std::io::Result<()> {
     let n_pairs = if n >= 2 * pairs.len() { pairs.len() } else { n / 2 };
     let mut i = 0;
     let emit = |f: &mut std::io::BufWriter<std::fs::File>, g: GenCase, i: usize| -> std::io::Result<()> {
-        writeln!(f, "case {}~{}", i, g.tags.join("~"))?;
+        // the store handle family is a mode of the case, derived from its number: half the cases use the
+        // arena `Store`, a quarter an `ArcStore`, a quarter a `Store` converted from an `ArcStore`
+        let (mode, mtag) = match i % 4 {
+            1 => (" arc", "~store-arc"),
+            3 => (" conv", "~store-from-arc"),
+            _ => ("", ""),
+        };
+        writeln!(f, "case {}~{}{}", i, g.tags.join("~"), mtag)?;
         for l in g.lines {
-            writeln!(f, "{l}")?;
+            if l.starts_with("init ") {
+                writeln!(f, "{l}{mode}")?;
+            } else {
+                writeln!(f, "{l}")?;
+            }
         }
         Ok(())
     };
